@@ -247,7 +247,13 @@ func identityMapC(ids []uint16) map[uint16]uint16 {
 // runC20box: a real msg.Box whose GC clock ticks every 100 us while several goroutines receive and send on a few topics.
 func runC20box(rep int, rng *rand.Rand) (string, int) {
 	h := &recHandler{}
-	b := &msg.Box{Logger: common.Nolog{}, MaxInFlightTopicsBySender: 50, GCSweep: 100 * time.Microsecond, GCExpire: 400 * time.Microsecond, NewTicker: time.NewTicker,
+	// every second repetition with a topic limit far below the number of topics in use, so that the paths that refuse a sender's
+	// traffic run concurrently with first Sends and sweeps
+	limit, topics := 50, 6
+	if rep%2 == 1 {
+		limit, topics = 2, 14
+	}
+	b := &msg.Box{Logger: common.Nolog{}, MaxInFlightTopicsBySender: limit, GCSweep: 100 * time.Microsecond, GCExpire: 400 * time.Microsecond, NewTicker: time.NewTicker,
 		ForwardSend: func(uint8, []byte, []byte, ...tss.UniversalID) {}, MessageHandler: h}
 	var wg sync.WaitGroup
 	workers := 4 + rep%3
@@ -259,11 +265,11 @@ func runC20box(rep int, rng *rand.Rand) (string, int) {
 			defer wg.Done()
 			r := rand.New(rand.NewSource(seed))
 			for i := 0; i < 300; i++ {
-				t := topic32(fmt.Sprintf("t%d", r.Intn(6)))
+				t := topic32(fmt.Sprintf("t%d", r.Intn(topics)))
 				if r.Intn(4) == 0 {
 					b.Send(uint8(tss.MsgTypeMPC), t, []byte("out"), 9)
 				} else {
-					b.HandleMessage(&tss.IncMessage{MsgType: uint8(tss.MsgTypeMPC), Topic: t, Source: uint16(10 + w), Data: []byte{byte(i)}})
+					b.HandleMessage(&tss.IncMessage{MsgType: uint8(tss.MsgTypeMPC), Topic: t, Source: uint16(10 + w%2), Data: []byte{byte(i)}})
 				}
 				if i%40 == 0 {
 					time.Sleep(150 * time.Microsecond)
